@@ -321,7 +321,7 @@ func c15r4(r *R) {
 func c15r5(r *R) {
 	type site struct{ fn, method string }
 	allowed := map[site]int{
-		{"(*martian.proxyConn).readRequest", "SetReadDeadline"}:     3,
+		{"(*martian.proxyConn).readRequest", "SetReadDeadline"}:      3,
 		{"(*martian.proxyConn).writeResponse", "SetWriteDeadline"}:   1, // armed
 		{"(*martian.proxyConn).writeResponse$1", "SetWriteDeadline"}: 1, // cleared (deferred)
 	}
